@@ -43,7 +43,7 @@ def run(ctx):
             if isinstance(r, Err) or not all(all(x) for x in r):
                 found.append({"key": {"seq": rq[1][0], "struct": "".join(rq[1][1])}, "input": rq[1],
                               "what": f"writing the kernel string of some rotation and reading it back: {r!r} "
-                                      "([same object, parsed description equal, read-back description equal] per rotation)",
+                                      "([same object, parsed description equal, read-back description equal, same through a rewritten file] per rotation; a strand named like the first domain is alive meanwhile)",
                               "snippet": "from dsdobjects import *; from dsdobjects.objectio import *; set_io_objects(); "
                                          f"# build ComplexS from {rq[1]!r}, then read_pil_line('Y = ' + c.kernel_string)"})
         ctx.cov["correspondence"]["roundtrip(impl)"] = {"cases": len(rt), "failures": len(found)}
@@ -51,8 +51,7 @@ def run(ctx):
                        "length bound (sampled in quick), random large/deep ones; the model chain kernel_string -> Gallina PEG "
                        "parse of the regenerated grammar -> resolve_kernel_loops is compared with the implementation's chain; "
                        "non-trivial = distinct agreed results")
-    ctx.cov["partial"] = ["kernel_roundtrip_default_fuel_full: the chain theorem is proved for every sufficiently large parser fuel; that the "
-                          "interpreter's default fuel is sufficient is not proved (OutOfFuel never occurred in any run)"]
+    ctx.cov["partial"] = []
     if found and res["ok"] and not diffs:
         for f in found[:10]:
             ctx.violation("counterexample", f)
